@@ -26,6 +26,16 @@ Correspondence, within ONE logic and over identifier atoms that are not reserved
             original and of earlier clones); after EVERY step every object must be the formula of the tree its history gives
             it (tree, ==, hash, set/dict against a fresh build; != a fresh build of its former tree), two objects are ==
             exactly when their trees are, and no two objects share a node
+            edits go through the `name` of an atom, wrap_subformulas() and the live list of subformulas() with [k]=, [:]=, append, pop, reverse,
+            sort, +=, extend, insert, del, remove, clear; the comparison partners of an edited object (current and former tree) are built
+            and hashed BEFORE the edit, every object is hashed again after that, and nothing is constructed between the edit and the first
+            comparisons; the clone of every edited object is compared with it
+  fresh / parsed - the second object of a pair holds its atom names in str objects of its OWN (equal strings, other objects: names
+            computed at run time) / is read back from its printed form by the module's Parser (kept when that gives the same tree)
+  normal forms - the non-ASCII atoms include strings that differ but have one NFC / NFD / NFKC / NFKD / case-folded / width-folded form
+  shared  - ONE node object (an atom or a small formula) is an operand of 2-3 formulas (once or twice in each), everything is hashed, the
+            node is edited in place (all the edit kinds above): the node and EVERY formula it stands in must be the formula of its current
+            tree (same audit as `lives`, partners built before the edit included)
   all-pairs (thorough) - every ordered pair of the depth <= 2 enumeration of each logic through ==, in worker processes
 Across-language pairs are informational coverage only (the property is within one logic)."""
 from common import *
@@ -40,6 +50,15 @@ ATOMS = ('p', 'q', 'Ab', 'AX', 'orb', 'true_', '_x1', 'True', 'False')   # True/
 UATOMS = tuple(a for a in ('t\u00fcr', 't\u00f6r', 'tur', 'tr', 't_r', 'tuer', '\u00e9', '\u00e8', 'e', '\u00c4', '\u00e4', 'B', 'b', '\u00df', 'ss',
                            '\u03b1', '\u03b2', '\u03b1\u03b2', '\u0434\u0430', '\u0434\u043e', '\u65e5\u672c', '\u65e5\u672c\u8a9e', '\u00f1', 'n', '_\u00fc', '_\u00f6', 'p')
                if a.isidentifier() and a not in ('A', 'E', 'X', 'F', 'G', 'U', 'R', 'not', 'or', 'and', 'true', 'false'))
+# identifier atoms that are DIFFERENT strings but are merged by a unicode normal form (NFC / NFD / NFKC / NFKD), by case folding or by
+# width / compatibility mappings: composed next to decomposed accents, ligatures, micro sign / mu, feminine ordinal, long s, Angstrom
+# sign / A with ring, full-width letters, digraph letters ... plus every normal form of the atoms above that is a different identifier
+import unicodedata as _ud
+_UNORM = ('e\u0301', 'e\u0300', 'tu\u0308r', '\ufb01n', 'fin', '\u00b5', '\u03bc', 'x\u00aa', 'xa', '\u017ft', 'st', '\u212b', '\u00c5', 'A\u030a',
+          '\uff50', '\uff21X', '\u01c6', 'd\u017e', '\u2126', '\u03a9', '\u03c9', 'K', '\u212a', 'k', 'n\u0303')
+UATOMS_BASE = len(UATOMS)
+UATOMS = UATOMS + tuple(a for a in dict.fromkeys(_UNORM + tuple(_ud.normalize(nf, a) for a in UATOMS for nf in ('NFD', 'NFKD', 'NFC', 'NFKC')))
+                        if a.isidentifier() and a not in UATOMS and a not in ('A', 'E', 'X', 'F', 'G', 'U', 'R', 'not', 'or', 'and', 'true', 'false'))
 MAXV = 40
 LOGIC_OPS = ('not', 'or', 'and', 'imp')
 
@@ -175,9 +194,54 @@ def build_raw(f, L):
     return getattr(L, PYNAME[t])(*kids)
 
 
+def fresh_str(s):
+    """an equal str held in ANOTHER object (a name computed at run time, 'req%d' % i, or read from a file); the empty and the
+    one-character latin-1 strings are singletons of the interpreter: those stay what they are"""
+    return (s + '\0')[:-1]
+
+
+def build_fresh(f, L):
+    """same tree, every atom name held in a str object of its own (never the object the generator / another build holds)"""
+    t = f[0]
+    if t == 'ap':
+        return L.AtomicProposition(fresh_str(f[1]))
+    if t in ('true', 'false'):
+        return build(f, L)
+    return getattr(L, PYNAME[t])(*[build_fresh(g, L) for g in f[1:]])
+
+
+_PARSERS = {}
+PARSED_SKIPPED = [0]
+
+
+def build_parsed(f, L):
+    """through the text channel: the printed form of a separately built object is read back by the module's Parser; None unless that
+    gives an object of module L with the tree f (what the parser accepts / returns is the business of other properties)"""
+    Ln = L.__name__.split('.')[-1]
+    if Ln not in _PARSERS:
+        _PARSERS[Ln] = call(lambda: L.Parser())
+    if _PARSERS[Ln][0] != 'ok':
+        return None
+    r = call(lambda: _PARSERS[Ln][1](str(build(f, L))))
+    if r[0] != 'ok' or call(lambda: (tree_of(r[1]), langs_in(r[1]))) != ('ok', (f, {Ln})):
+        return None
+    return r[1]
+
+
 def impl_pair(Lf, f, Lg, g, raw=False):
-    fo = build(f, lang_module(Lf))
-    go = build_raw(g, lang_module(Lg)) if raw else build(g, lang_module(Lg))
+    """raw: False | True (raw str / bool operands) | 'fresh' (atom names in str objects of their own) | 'parsed' (g read back from text;
+    -> None when the parser does not give the tree g)"""
+    # 'fresh' / 'parsed': the first object's names are held in str objects of their own too (so that a replay, whose trees come out of a
+    # json file, sees the very same aliasing of name objects as the run did)
+    fo = build_fresh(f, lang_module(Lf)) if raw in ('fresh', 'parsed') else build(f, lang_module(Lf))
+    if raw == 'parsed':
+        go = build_parsed(g, lang_module(Lg))
+        if go is None:
+            return None
+    elif raw == 'fresh':
+        go = build_fresh(g, lang_module(Lg))
+    else:
+        go = build_raw(g, lang_module(Lg)) if raw else build(g, lang_module(Lg))
     obs = {}
     obs['eq_fg'] = call(lambda: fo == go)
     obs['eq_gf'] = call(lambda: go == fo)
@@ -188,7 +252,15 @@ def impl_pair(Lf, f, Lg, g, raw=False):
     obs['in_list'] = call(lambda: go in [fo])
     if raw:
         obs['raw_built_tree'] = call(lambda: tree_of(go))
+    if raw == 'fresh':
+        obs['names_held_in_distinct_objects'] = call(lambda: _distinct_names(fo, go))
     return {k: (list(v) if v[0] == 'err' else v[1]) for k, v in obs.items()}
+
+
+def _distinct_names(fo, go):
+    """machinery: the two builds of one multi-character atom name never hold ONE str object (else the stream tests nothing)"""
+    a = {id(n.name): n.name for n in nodes_of(fo) if type(n).__name__ == 'AtomicProposition' and len(n.name) > 1}
+    return not any(id(n.name) in a for n in nodes_of(go) if type(n).__name__ == 'AtomicProposition' and len(n.name) > 1)
 
 
 def expected_pair(same):
@@ -378,11 +450,43 @@ def small_of(rng, L, atoms):
     return rand_of(rng, L, rng.randint(1, 2), atoms)
 
 
-def gen_edit(rng, L, t, i, atoms):
-    """one in-place edit of heap object i (tree t) -> (op, new tree) or None; the new tree stays in the logic L"""
+LIST_KINDS = ('reverse', 'sort', 'iadd', 'extend', 'insert', 'del', 'remove', 'slice', 'refill')
+
+
+def edit_tree(g, op):
+    """the tree of a node (tree g) after the in-place edit op: the pure side of life_apply"""
+    kind = op[0]
+    if kind == 'rename':
+        return ('ap', op[3])
+    if kind == 'slot':
+        return g[:op[3] + 1] + (op[4],) + g[op[3] + 2:]
+    if kind in ('wrap', 'refill'):
+        return (g[0],) + tuple(g[p + 1] for p in op[3])
+    if kind in ('grow', 'iadd', 'extend'):
+        return g + (op[3],)
+    if kind == 'shrink':
+        return g[:-1]
+    if kind in ('reverse', 'slice'):
+        return (g[0],) + tuple(reversed(g[1:]))
+    if kind == 'sort':
+        return (g[0],) + tuple(sorted(g[1:], key=repr))
+    if kind == 'insert':
+        return g[:op[3] + 1] + (op[4],) + g[op[3] + 1:]
+    if kind == 'del':
+        return g[:op[3] + 1] + g[op[3] + 2:]
+    if kind == 'remove':
+        k = g[1:].index(g[op[3] + 1])         # list.remove drops the FIRST operand that is == to the given one
+        return g[:k + 1] + g[k + 2:]
+    raise ValueError(kind)
+
+
+def gen_edit(rng, L, t, i, atoms, ok=None):
+    """one in-place edit of heap object i (tree t) -> (op, new tree) or None; the new tree stays in the logic L (ok: another
+    acceptance test of the new tree)"""
     pos = list(positions(t))
+    inner = [pg for pg in pos if pg[1][0] not in ('true', 'false', 'ap')]
     for _ in range(12):
-        path, g = rng.choice(pos)
+        path, g = rng.choice(inner if inner and rng.random() < 0.5 else pos)
         tag = g[0]
         if tag == 'ap':
             new = rng.choice([a for a in atoms if a != g[1]])
@@ -390,8 +494,10 @@ def gen_edit(rng, L, t, i, atoms):
         elif tag in ('true', 'false'):
             continue                      # a Bool has no public way of being edited in place (it can be replaced: 'slot')
         else:
-            kind = rng.choice(('slot', 'slot', 'wrap', 'grow', 'shrink'))
             n = len(g) - 1
+            kind = rng.choice(('slot', 'slot') + (('wrap', 'reverse', 'slice', 'sort', 'refill') if n >= 2 else ())
+                              + (('grow', 'iadd', 'extend', 'insert') if tag in NARY and n == 2 else ())
+                              + (('shrink', 'del', 'remove') if tag in NARY and n == 3 else ()))
             if kind == 'slot':
                 k = rng.randrange(n)
                 new = near_miss(rng, g[k + 1], 'CTLS', atoms) if rng.random() < 0.4 else small_of(rng, L, atoms)
@@ -408,10 +514,30 @@ def gen_edit(rng, L, t, i, atoms):
                 op, ng = ('grow', i, path, new), g + (new,)
             elif kind == 'shrink' and tag in NARY and n == 3:
                 op, ng = ('shrink', i, path), g[:-1]
+            elif kind in ('reverse', 'slice', 'sort') and n >= 2:
+                # list methods of the live operand list other than [k]= / append / pop: reverse(), [:] = reversed copy, sort(key)
+                op = (kind, i, path)
+                ng = edit_tree(g, op)
+            elif kind == 'refill' and n >= 2:
+                perm = list(range(n))
+                rng.shuffle(perm)
+                op, ng = ('refill', i, path, tuple(perm)), (tag,) + tuple(g[p + 1] for p in perm)   # clear(), then += the operands again
+            elif kind in ('iadd', 'extend') and tag in NARY and n == 2:
+                new = small_of(rng, L, atoms)
+                op, ng = (kind, i, path, new), g + (new,)
+            elif kind == 'insert' and tag in NARY and n == 2:
+                k, new = rng.randrange(n + 1), small_of(rng, L, atoms)
+                op = ('insert', i, path, k, new)
+                ng = edit_tree(g, op)
+            elif kind in ('del', 'remove') and tag in NARY and n == 3:
+                op = (kind, i, path, rng.randrange(n))
+                ng = edit_tree(g, op)
             else:
                 continue
+            if ng == g:
+                continue
         nt = replace_at(t, path, ng)
-        if pymember(L, nt):
+        if pymember(L, nt) if ok is None else ok(nt):
             return op, nt
     return None
 
@@ -460,29 +586,57 @@ def life_apply(M, heap, shadow, op):
     path = op[2]
     n = node_at(heap[i], path)
     g = subtree(shadow[i], path)
-    if kind == 'rename':
-        n.name = op[3]
-        ng = ('ap', op[3])
-    elif kind == 'slot':
-        k, new = op[3], op[4]
-        n.subformulas()[k] = build(new, M)               # the public accessor returns the live operand list
-        ng = g[:k + 1] + (new,) + g[k + 2:]
-    elif kind == 'wrap':
-        kids = list(n.subformulas())
-        n.wrap_subformulas([kids[p] for p in op[3]], M.Formula)
-        ng = (g[0],) + tuple(g[p + 1] for p in op[3])
-    elif kind == 'grow':
-        n.subformulas().append(build(op[3], M))
-        ng = g + (op[3],)
-    elif kind == 'shrink':
-        n.subformulas().pop()
-        ng = g[:-1]
-    else:
-        raise ValueError(kind)
-    if kind in ('slot', 'grow', 'shrink') and tree_of(heap[i]) == shadow[i]:
+    ng = edit_tree(g, op)
+    apply_edit(M, n, op, len(path))
+    if kind not in ('rename', 'wrap') and tree_of(heap[i]) == shadow[i] and ng != g:
         return 'ineffective'              # subformulas() handed out a copy: nothing was edited (not the case in the library as it is)
     shadow[i] = replace_at(shadow[i], path, ng)
     return i
+
+
+def apply_edit(M, n, op, depth=0):
+    """the in-place edit op on the node object n, through the public surface only: the `name` of an atom, wrap_subformulas() and
+    the live list returned by subformulas() with the list methods [k]=, [:]=, append, pop, reverse, sort, +=, extend, insert, del, remove,
+    clear"""
+    kind = op[0]
+    if kind == 'rename':
+        # every other level: the new name is held in a str object of its own (not the object the comparison partners will hold)
+        n.name = fresh_str(op[3]) if depth % 2 == 0 else op[3]
+    elif kind == 'slot':
+        n.subformulas()[op[3]] = build(op[4], M)               # the public accessor returns the live operand list
+    elif kind == 'wrap':
+        kids = list(n.subformulas())
+        n.wrap_subformulas([kids[p] for p in op[3]], M.Formula)
+    elif kind == 'grow':
+        n.subformulas().append(build(op[3], M))
+    elif kind == 'shrink':
+        n.subformulas().pop()
+    elif kind == 'reverse':
+        n.subformulas().reverse()
+    elif kind == 'slice':
+        ops_ = n.subformulas()
+        ops_[:] = ops_[::-1]
+    elif kind == 'sort':
+        n.subformulas().sort(key=lambda o: repr(tree_of(o)))
+    elif kind == 'refill':
+        ops_ = n.subformulas()
+        kids = list(ops_)
+        ops_.clear()
+        ops_ += [kids[p] for p in op[3]]
+    elif kind == 'iadd':
+        ops_ = n.subformulas()
+        ops_ += [build(op[3], M)]
+    elif kind == 'extend':
+        n.subformulas().extend(build(x, M) for x in [op[3]])
+    elif kind == 'insert':
+        n.subformulas().insert(op[3], build(op[4], M))
+    elif kind == 'del':
+        del n.subformulas()[op[3]]
+    elif kind == 'remove':
+        ops_ = n.subformulas()
+        ops_.remove(ops_[op[3]])
+    else:
+        raise ValueError(kind)
 
 
 def _ids(o):
@@ -494,7 +648,28 @@ def _ids(o):
     return s
 
 
-def life_audit(M, heap, shadow, edited=None, former=None):
+def prebuild(M, trees):
+    """comparison partners built, printed, hashed and used as keys BEFORE an edit happens (tree -> object)"""
+    pre = {}
+    for t in trees:
+        if t not in pre:
+            o = build(t, M)
+            hash(o), str(o), {o: 1}, o == o
+            for n in nodes_of(o):
+                hash(n)
+            pre[t] = o
+    return pre
+
+
+def remember(heap):
+    """every node of every object is hashed / printed / used as a key: whatever can be remembered is remembered NOW (called after the
+    comparison partners were built: nothing is constructed between this and the edit)"""
+    for o in heap:
+        for n in nodes_of(o):
+            hash(n), str(n), {n: 1}, n == n
+
+
+def life_audit(M, heap, shadow, edited=None, former=None, pre=None, share_ok=False):
     """every object of the heap must BE its shadow tree: same tree (no edit leaked from another object), ==, hash, set and dict
     behaviour of a freshly built formula of that tree; two heap objects are == exactly when their trees are, and share no
     node; an edited object is no longer == to a fresh formula of its former tree -> list of problems"""
@@ -505,17 +680,22 @@ def life_audit(M, heap, shadow, edited=None, former=None):
             bad.append(['object %d does not have the tree its history gives it' % i, list(r) if r[0] == 'err' else r[1], t])
     if bad:
         return bad
+    # FIRST, before anything else is built: the edited objects against partners that were built and hashed BEFORE the edit, one of the
+    # current tree, one of the former tree (no formula is constructed between the edit and these comparisons)
     for i, (o, t) in enumerate(zip(heap, shadow)):
-        g = build(t, M)
-        co = [call(lambda: o == g)[1], call(lambda: g == o)[1], call(lambda: o != g)[1], call(lambda: hash(o) == hash(g))[1],
-              call(lambda: len({o, g}))[1], call(lambda: {g: 1}.get(o))[1], call(lambda: {o: 1}.get(g))[1], call(lambda: g in [o])[1]]
-        if co != [True, True, False, True, 1, 1, 1, True]:
-            bad.append(['object %d against a fresh formula of its current tree: ==, reversed ==, !=, hash equal, len(set), dict hit, reversed dict hit, in list' % i, co])
-        if i == edited and former != t:
-            h = build(former, M)
-            co = [call(lambda: o == h)[1], call(lambda: h == o)[1], call(lambda: len({o, h}))[1], call(lambda: {h: 1}.get(o))[1]]
-            if co != [False, False, 2, None]:
-                bad.append(['edited object %d against a fresh formula of its FORMER tree: ==, reversed ==, len(set), dict hit' % i, co])
+        fm = former.get(i) if isinstance(former, dict) else (former if i == edited else None)
+        if fm is not None:
+            # partners that were built and hashed BEFORE the edit: one of the current tree, one of the former tree
+            for what, tt in (('CURRENT', t), ('FORMER', fm)):
+                h = (pre or {}).get(tt)
+                if h is None or (what == 'FORMER' and fm == t):
+                    continue
+                same = tt == t
+                co = [call(lambda: o == h)[1], call(lambda: h == o)[1], call(lambda: hash(o) == hash(h))[1] if same else True,
+                      call(lambda: len({o, h}))[1], call(lambda: {h: 1}.get(o))[1], call(lambda: tree_of(h))[1] == tt]
+                if co != [same, same, True, 1 if same else 2, 1 if same else None, True]:
+                    bad.append(['edited object %d against a formula of its %s tree that was built and hashed BEFORE the edit: ==, reversed ==, hash equal, '
+                                'len(set), dict hit, partner still has its tree' % (i, what), co])
     ids = [_ids(o) for o in heap]
     for i in range(len(heap)):
         for j in range(i + 1, len(heap)):
@@ -524,10 +704,31 @@ def life_audit(M, heap, shadow, edited=None, former=None):
             co = [call(lambda: a == b)[1], call(lambda: b == a)[1], call(lambda: len({a, b}))[1]]
             if co != [same, same, 1 if same else 2] or (same and call(lambda: hash(a) == hash(b))[1] is not True):
                 bad.append(['objects %d and %d (same tree: %s): ==, reversed ==, len(set)' % (i, j, same), co])
+            if share_ok:
+                continue
             if a is b:
                 bad.append(['objects %d and %d are ONE object (a clone that is not a new object)' % (i, j)])
             elif ids[i] & ids[j]:
                 bad.append(['objects %d and %d share a node' % (i, j)])
+    for i, (o, t) in enumerate(zip(heap, shadow)):
+        g = build(t, M)
+        co = [call(lambda: o == g)[1], call(lambda: g == o)[1], call(lambda: o != g)[1], call(lambda: hash(o) == hash(g))[1],
+              call(lambda: len({o, g}))[1], call(lambda: {g: 1}.get(o))[1], call(lambda: {o: 1}.get(g))[1], call(lambda: g in [o])[1]]
+        if co != [True, True, False, True, 1, 1, 1, True]:
+            bad.append(['object %d against a fresh formula of its current tree: ==, reversed ==, !=, hash equal, len(set), dict hit, reversed dict hit, in list' % i, co])
+        fm = former.get(i) if isinstance(former, dict) else (former if i == edited else None)
+        if fm is not None and fm != t:
+            h = build(fm, M)
+            co = [call(lambda: o == h)[1], call(lambda: h == o)[1], call(lambda: len({o, h}))[1], call(lambda: {h: 1}.get(o))[1]]
+            if co != [False, False, 2, None]:
+                bad.append(['edited object %d against a fresh formula of its FORMER tree: ==, reversed ==, len(set), dict hit' % i, co])
+        if fm is not None:
+            # the clone of an edited object is a formula of the current tree, equal to it
+            c = call(lambda: o.clone())
+            co = [c[0]] if c[0] != 'ok' else [call(lambda: tree_of(c[1]))[1] == t, call(lambda: c[1] == o)[1], call(lambda: o == c[1])[1],
+                                              call(lambda: hash(c[1]) == hash(o))[1], c[1] is not o and not (_ids(c[1]) & _ids(o))]
+            if co != [True] * 5:
+                bad.append(['clone() of the edited object %d: has the current tree, clone == object, object == clone, hashes equal, shares nothing' % i, co])
     # every node is hashed / printed / used as a key, so that whatever can be remembered is remembered before the next edit
     for o in heap:
         for n in nodes_of(o):
@@ -545,12 +746,17 @@ def impl_life(Ln, f, ops, raw=False):
         return {'step': -1, 'op': None, 'problems': bad, 'heap': [fstr(t) for t in shadow]}, 0
     for k, op in enumerate(ops):
         former = shadow[op[1]]
+        pre = None
+        if op[0] not in ('clone', 'clonesub'):
+            # comparison partners of the tree the object is about to have and of the tree it has: built and hashed BEFORE the edit
+            pre = prebuild(M, [replace_at(former, op[2], edit_tree(subtree(former, op[2]), op)), former])
+            remember(heap)
         r = call(lambda: life_apply(M, heap, shadow, op))
         if r[0] == 'err':
             return {'step': k, 'op': op, 'problems': [['the step raised', r[1]]], 'heap': [fstr(t) for t in shadow]}, k
         if r[1] == 'ineffective':
             ineffective[0] += 1
-        bad = life_audit(M, heap, shadow, edited=r[1] if isinstance(r[1], int) else None, former=former)
+        bad = life_audit(M, heap, shadow, edited=r[1] if isinstance(r[1], int) else None, former=former, pre=pre)
         if bad:
             return {'step': k, 'op': op, 'problems': bad, 'heap': [fstr(t) for t in shadow]}, k
     return None, len(ops)
@@ -576,6 +782,129 @@ def check_lives(R, J, items, tag):
             for op in ops:
                 R.count('life_op_' + op[0])
             R.nontriv(('life', L, f, ops))
+
+
+# ----------------------------------------------------------------------------------------
+# shared nodes: ONE node object (an atom, a subformula) is an operand of several formulas (p = AtomicProposition('p') used twice)
+# ----------------------------------------------------------------------------------------
+def subst(f, paths, t):
+    for p_ in paths:
+        f = replace_at(f, p_, t)
+    return f
+
+
+def build_at(f, M, paths, d, at=()):
+    """the tree f bottom-up with the classes of M, the object d standing at every position of `paths`"""
+    if at in paths:
+        return d
+    if f[0] in ('true', 'false', 'ap'):
+        return build(f, M)
+    return getattr(M, PYNAME[f[0]])(*[build_at(g, M, paths, d, at + (i,)) for i, g in enumerate(f[1:])])
+
+
+def gen_shared(rng, L, cands, atoms):
+    """-> (donor tree s, owners ((tree with s at the positions, positions), ...), edits of the donor) generated on trees only: a donor
+    (an atom or a small formula) standing at one or two positions of each of 2-3 owner formulas, then 2-5 in-place edits INSIDE the donor,
+    every one of which keeps the donor and all its owners in the logic L"""
+    for _ in range(20):
+        s = ('ap', rng.choice(atoms)) if rng.random() < 0.4 else rng.choice(cands)
+        if fheight(s) > 2 or not pymember(L, s):
+            continue
+        owners = []
+        for _o in range(rng.randint(2, 3)):
+            for _t in range(10):
+                r = rng.random()
+                if r < 0.2:
+                    f = ('not', s)
+                elif r < 0.3:
+                    f = (rng.choice(('imp', 'or', 'and')), s, s)                      # the same object twice in ONE formula
+                elif r < 0.45:
+                    f = (rng.choice(('or', 'and')),) + tuple(rng.sample([s, ('ap', rng.choice(atoms))], 2))
+                else:
+                    f = rng.choice(cands)
+                pos = [p_ for p_, _g in positions(f) if p_]
+                if not pos:
+                    continue
+                if f[0] in ('not', 'imp', 'or', 'and') and r < 0.45:
+                    paths = tuple(p_ for p_, g in positions(f) if g == s and len(p_) == 1)
+                else:
+                    paths = (rng.choice(pos),)
+                    if rng.random() < 0.25:
+                        q = rng.choice(pos)
+                        if q[:len(paths[0])] != paths[0] and paths[0][:len(q)] != q:
+                            paths += (q,)
+                f = subst(f, paths, s)
+                if pymember(L, f):
+                    owners.append((f, tuple(sorted(paths))))
+                    break
+        if len(owners) < 2:
+            continue
+        ops, cur = [], s
+        for _e in range(rng.randint(2, 5)):
+            e = gen_edit(rng, L, cur, 0, atoms, ok=lambda nt: pymember(L, nt) and all(pymember(L, subst(f, ps, nt)) for f, ps in owners))
+            if e is not None:
+                ops.append(e[0])
+                cur = e[1]
+        if ops:
+            return s, tuple(owners), tuple(ops)
+    return None
+
+
+def impl_shared(Ln, s, owners, ops):
+    """heap = [donor, owner 1, ...]; after every edit of the donor every object must be the formula of its current tree
+    -> (None | {'step', 'op', 'problems', 'heap'}, number of steps run)"""
+    M = lang_module(Ln)
+    d = build(s, M)
+    heap = [d] + [build_at(f, M, paths, d) for f, paths in owners]
+    # the operators keep operands of their own module by reference (aliasing is read off object identity; a constructor that
+    # copies its operands gives an owner that is independent of the donor)
+    aliased = [all(node_at(o, p_) is d for p_ in paths) for o, (f, paths) in zip(heap[1:], owners)]
+
+    def shadows(t):
+        return [t] + [subst(f, paths, t) if al else f for (f, paths), al in zip(owners, aliased)]
+    cur, shadow = s, shadows(s)
+    bad = life_audit(M, heap, shadow, share_ok=True)
+    if bad:
+        return {'step': -1, 'op': None, 'problems': bad, 'heap': [fstr(t) for t in shadow], 'owner_holds_the_donor_object': aliased}, 0
+    for k, op in enumerate(ops):
+        path = op[2]
+        new = replace_at(cur, path, edit_tree(subtree(cur, path), op))
+        formers, nshadow = dict(enumerate(shadow)), shadows(new)
+        pre = prebuild(M, nshadow + shadow)
+        remember(heap)
+        r = call(lambda: apply_edit(M, node_at(d, path), op, len(path)))
+        if r[0] == 'err':
+            return {'step': k, 'op': op, 'problems': [['the step raised', r[1]]], 'heap': [fstr(t) for t in shadow]}, k
+        cur, shadow = new, nshadow
+        bad = life_audit(M, heap, shadow, former=formers, pre=pre, share_ok=True)
+        if bad:
+            return {'step': k, 'op': op, 'problems': bad, 'heap': [fstr(t) for t in shadow], 'owner_holds_the_donor_object': aliased}, k
+    return None, len(ops)
+
+
+def check_shared(R, J, items):
+    """items: (L, donor, owners, ops)"""
+    for (L, s, owners, ops) in sorted(items, key=lambda it: fsize(it[1]) + sum(fsize(f) for f, _ in it[2]) + len(it[3])):
+        R.evaluations += 1
+        try:
+            res, steps = impl_shared(L, s, owners, ops)
+        except Exception as e:  # noqa  (on a correct library no audit step can fail)
+            res, steps = {'step': None, 'op': None, 'problems': [['the audit raised', '%s: %s' % (type(e).__name__, ' '.join(str(e).split())[:160])]]}, 0
+        if res is not None:
+            k = res['step']
+            J.bad('a node object that is an operand of several formulas was edited in place: one of the formulas no longer behaves (==, hash, keys, clone) '
+                  'as the formula of its current tree',
+                  {'kind': 'shared', 'lang': L, 'donor': s, 'donor_str': fstr(s), 'owners': [[f, list(ps)] for f, ps in owners],
+                   'owners_str': [fstr(f) for f, _ in owners], 'ops': list(ops[:k + 1] if isinstance(k, int) else ops), 'impl': res})
+        else:
+            R.count('shared_node_cases')
+            R.count('shared_node_steps', steps)
+            R.count('shared_owners', len(owners))
+            R.count('shared_donor_is_atom' if s[0] == 'ap' else 'shared_donor_is_operator')
+            R.count('shared_donor_twice_in_one_owner', sum(len(ps) > 1 for _, ps in owners))
+            for op in ops:
+                R.count('shared_op_' + op[0])
+            R.nontriv(('shared', L, s, owners, ops))
 
 
 # ----------------------------------------------------------------------------------------
@@ -662,7 +991,9 @@ def check_pairs(R, J, L, pairs, tag, model=True):
     """pairs of trees of ONE logic L; tag 'rawcopy' / 'u-rawcopy': the second object is built from raw str / bool operands;
     model=False (atoms outside the model's `good` predicate: non-ASCII identifiers): judged by tree equality alone"""
     raw = tag.endswith('rawcopy')
-    if tag.split('-')[-1] in ('copy', 'rawcopy', 'nearmiss'):
+    if tag.split('-')[-1].startswith(('fresh', 'parsed')):
+        raw = 'fresh' if tag.split('-')[-1].startswith('fresh') else 'parsed'
+    if tag.split('-')[-1] in ('copy', 'rawcopy', 'nearmiss', 'freshcopy', 'freshnear', 'parsedcopy', 'parsednear'):
         pairs = sorted(pairs, key=lambda fg: fsize(fg[0]) + fsize(fg[1]))   # the smallest failing case is recorded first
     cmds = []
     for f, g in pairs:
@@ -676,16 +1007,23 @@ def check_pairs(R, J, L, pairs, tag, model=True):
         if model and (m_fg != same or m_gf != same):
             raise RuntimeError('C11 machinery: model eq_obj disagrees with tree equality on good formulas (contradicts C11_eq_iff_tree): %s %s %s' % (L, fstr(f), fstr(g)))
         obs = impl_pair(L, f, L, g, raw=raw)
+        if obs is None:
+            PARSED_SKIPPED[0] += 1
+            continue
         exp = expected_pair(same)
         if raw:
             exp['raw_built_tree'] = g
+        if raw == 'fresh' and obs.get('names_held_in_distinct_objects') is not True:
+            R.count('fresh_pairs_whose_names_are_one_object_after_all(informational)')
         diff = [k for k in exp if obs[k] != exp[k]]
         if same and obs['hash_equal'] is not True:
             diff.append('hash_equal')
         if diff:
             J.bad('equality / hashing of two %s formulas is not coherent with tree equality: %s' % (L, ','.join(diff)),
                   {'kind': 'pair', 'lang': L, 'f': f, 'g': g, 'f_str': fstr(f), 'g_str': fstr(g), 'same_tree': same,
-                   'impl': obs, 'model_eq': [m_fg, m_gf], 'expected': exp, 'differs': diff, 'g_built_from_raw_operands': raw,
+                   'impl': obs, 'model_eq': [m_fg, m_gf], 'expected': exp, 'differs': diff, 'g_built_from_raw_operands': raw is True,
+                   'g_built': {True: 'raw str / bool operands', False: 'objects', 'fresh': 'atom names held in str objects of their own',
+                               'parsed': 'read back from its printed form by the Parser of the module'}[raw], 'g_mode': raw,
                    'model_free': not model})
             continue
         R.count('pairs_%s_%s' % (tag, 'equal' if same else 'unequal'))
@@ -693,7 +1031,7 @@ def check_pairs(R, J, L, pairs, tag, model=True):
             R.count('hash_collisions_of_unequal_formulas(permitted)')
         if same and fheight(f) >= 1:
             R.nontriv(('pair-eq', L, f))
-        elif tag.endswith('nearmiss'):
+        elif tag.endswith(('nearmiss', 'freshnear', 'parsednear')):
             R.nontriv(('pair-near', L, f, g))
             if tag == 'nearmiss' and fheight(f) >= 2 and R.cov.get('samples_' + L, 0) < 2:
                 R.count('samples_' + L)
@@ -778,7 +1116,18 @@ def run(R):
               'audited after every step: each object against a fresh build of its shadow tree (tree, ==, hash, set, dict) and of its former tree, all object pairs '
               '(== iff same shadow tree, hash, no shared node); ' % LIFE_HEAP +
               'non-trivial = equal pair of distinct objects of height >= 1, near-miss pair, triple with a repeated tree, clone of height >= 1, CTL compact print, '
-              'life-cycle script that ran to its end')
+              'life-cycle script that ran to its end; '
+              'ADDED (2nd audit): edit kinds of the life scripts through the live operand list: reverse(), sort(key), [:] = reversed, clear() and +=, +=, extend, insert, '
+              'del [k], remove (half of the edits pick an operator node), renames at even depth hand over a str object of their own; for every edit the partners of the '
+              'current and of the former tree are built and hashed BEFORE the edit, all heap nodes are hashed again, then the edit, then those partners are compared '
+              'first (==, both directions, hash, set, dict), then the heap pairs, then fresh builds, then clone() of the edited object; pair streams freshcopy / freshnear '
+              '(all atom pairs bare + sampled copies and near misses; both objects hold their atom names in str objects of their own, so equal names are never one '
+              'object when longer than one character), parsedcopy / parsednear (second object read back from its printed form by the module Parser, kept when the tree '
+              'is the same); non-ASCII atoms extended by %d strings that differ from another atom only by a unicode normal form (NFC/NFD/NFKC/NFKD of every atom, '
+              'ligature, micro/mu, ordinal, long s, Angstrom, Ohm, Kelvin, full-width, digraph), all ordered pairs as before; shared-node cases: a donor node (atom 40%% / '
+              'formula of height <= 2) standing once or twice in each of 2-3 owner formulas (not / imp / or / and over it, or a position of a random formula), 2-5 edits '
+              'inside the donor that keep every owner in the logic, life audit of donor and owners after every edit; non-trivial also: shared-node case that ran to its end'
+              % (len(UATOMS) - UATOMS_BASE))
     small_leaves = [('ap', 'p'), ('ap', 'AX'), ('true',), ('false',), ('ap', 'True'), ('ap', 'False')]
     ap_leaves = [('ap', 'AX'), ('true',)]
     pool1 = {L: enum_logic(L, 1, small_leaves) for L in LANGS}
@@ -836,6 +1185,16 @@ def run(R):
             if g is not None:
                 nm.append((f, g))
         check_pairs(R, J, L, nm, 'nearmiss')
+        # (c') the second object's atom names are held in str objects of their OWN (equal names, another object: names computed at run
+        # time) / the second object is read back from text by the module's Parser; judged by tree equality (the model has judged these
+        # very trees in the streams above)
+        al = [('ap', a) for a in ATOMS]
+        fsrc = al + _some(rng, [f for f in src if any(len(a) > 1 for a in atoms_of(f))], 2000 if R.thorough else 200)
+        check_pairs(R, J, L, [(f, f) for f in fsrc], 'freshcopy', model=False)
+        check_pairs(R, J, L, [(f, g) for f in al for g in al if f != g] + _some(rng, nm, 1000 if R.thorough else 100), 'freshnear', model=False)
+        psrc = al + _some(rng, src, 400 if R.thorough else 40)
+        check_pairs(R, J, L, [(f, f) for f in psrc], 'parsedcopy', model=False)
+        check_pairs(R, J, L, _some(rng, nm, 300 if R.thorough else 30), 'parsednear', model=False)
         # (d) triples
         triples = []
         for (f, g) in rng.sample(nm, min(len(nm), 3000 if R.thorough else 250)):
@@ -967,6 +1326,8 @@ def run(R):
             if g != f:
                 nm.append((f, g))
         check_pairs(R, J, L, nm, 'u-nearmiss', model=False)
+        check_pairs(R, J, L, [(f, f) for f in uleaves + urand], 'u-freshcopy', model=False)
+        check_pairs(R, J, L, _some(rng, nm, 150), 'u-freshnear', model=False)
         triples = []
         for (f, g) in rng.sample(nm, min(len(nm), 60)):
             triples += [(f, f, g), (f, g, f), (g, f, f), (f, g, rng.choice(urand))]
@@ -983,6 +1344,8 @@ def run(R):
         else:
             R.count('global_set_dict_checks')
     R.cov['non_ascii_atoms'] = list(UATOMS)
+    R.cov['non_ascii_atoms_merged_by_a_normal_form'] = sorted({_ud.normalize('NFKC', a).casefold() for a in UATOMS
+                                                                if sum(_ud.normalize('NFKC', b).casefold() == _ud.normalize('NFKC', a).casefold() for b in UATOMS) > 1})
     mark('non-ascii')
     # ---- life cycles: clone / edit scripts over a small heap of objects ------------------
     lives = []
@@ -995,9 +1358,21 @@ def run(R):
         for f in _some(rng, [f for f in rand['u' + L] if 1 <= fheight(f) <= 3], 400 if R.thorough else 40):
             lives.append((L, f, gen_life(rng, L, f, rng.randint(4, 9), UATOMS)))
     check_lives(R, J, lives, 'script')
+    mark('lives')
+    # ---- shared nodes: one node object standing in several formulas, edited in place --------------------------------
+    shared = []
+    for L in LANGS:
+        cands = [f for f in pool1[L] if fheight(f) >= 1] + [f for f in rand[L] if 1 <= fheight(f) <= 3]
+        ucands = [f for f in rand['u' + L] if 1 <= fheight(f) <= 3]
+        for n in range(800 if R.thorough else 50):
+            c = gen_shared(rng, L, cands if n % 5 else ucands, ATOMS if n % 5 else UATOMS)
+            if c is not None:
+                shared.append((L,) + c)
+    check_shared(R, J, shared)
+    R.cov['parsed_pairs_skipped(parser does not give the tree back)'] = PARSED_SKIPPED[0]
+    mark('shared')
     R.cov['life_edits_without_effect(subformulas() not live)'] = LIFE_INEFFECTIVE[0]
     R.cov['life_script_lengths'] = dict(collections.Counter(len(o) for (_, _, o) in lives))
-    mark('lives')
     R.cov['section_wall_s'] = T
     for L in LANGS:
         R.cov.pop('samples_' + L, None)
@@ -1013,18 +1388,21 @@ def replay(R, data):
     print('case :', {k: v for k, v in d.items() if k not in ('impl', 'expected', 'model')})
     if kind == 'pair':
         f, g = detuple(d['f']), detuple(d['g'])
-        raw = bool(d.get('g_built_from_raw_operands'))
+        raw = d.get('g_mode', bool(d.get('g_built_from_raw_operands')))
         exp = expected_pair(f == g)
         if raw:
             exp['raw_built_tree'] = g
-        for phase in range(3 if raw else 1):            # raw builds rotate between three leaf styles: replay all of them
+        for phase in range(3 if raw is True else 1):            # raw builds rotate between three leaf styles: replay all of them
             _RAWMODE[0] = phase
             obs = impl_pair(L, f, L, g, raw=raw)
+            if obs is None:
+                print('impl : the parser no longer gives the tree g back: nothing to compare')
+                return
             if any(obs[k] != exp[k] for k in exp):
                 break
         print('impl :', obs)
         if d.get('model_free'):
-            print('model: - (atoms outside the model\'s `good` predicate: judged by tree equality alone)  tree equality:', f == g)
+            print('model: - (judged by tree equality alone: atoms outside the model\'s `good` predicate, or a stream whose trees the model judged in the copy / nearmiss streams)  tree equality:', f == g)
         else:
             m = model_batch([['eq', [L, fsx(f)], [L, fsx(g)]], ['eq', [L, fsx(g)], [L, fsx(f)]], ['print', L, fsx(f)], ['print', L, fsx(g)]])
             print('model: eq', m[0], m[1], 'print', repr(str(m[2])), repr(str(m[3])), ' tree equality:', f == g)
@@ -1056,6 +1434,15 @@ def replay(R, data):
         print('script  :', ops)
         print('impl    :', res if res is not None else 'every object behaves as the formula of its current tree after each of the %d steps' % steps)
         print('expected: every object behaves as the formula of its current tree after each step (model-free: tree equality)')
+        if res is not None:
+            R.violation('replayed', d)
+    elif kind == 'shared':
+        s_, owners, ops = detuple(d['donor']), tuple((f, tuple(ps)) for f, ps in detuple(d['owners'])), detuple(d['ops'])
+        res, steps = impl_shared(L, s_, owners, ops)
+        print('donor   :', fstr(s_), ' owners:', [(fstr(f), ps) for f, ps in owners])
+        print('edits   :', ops)
+        print('impl    :', res if res is not None else 'every object behaves as the formula of its current tree after each of the %d steps' % steps)
+        print('expected: the donor and every formula it is an operand of behave as the formulas of their current trees after each step (model-free: tree equality)')
         if res is not None:
             R.violation('replayed', d)
     elif kind == 'bool':
